@@ -186,6 +186,32 @@ func classifyMain(scratch string, cfg *rsyncdconfig.Config, args []string) strin
 	}
 }
 
+// daemonModules runs the real Main (daemon mode over stdin/stdout) with the given command line and asks
+// it for its module list: the names it is prepared to serve.
+func daemonModules(cfg *rsyncdconfig.Config, args []string) []string {
+	var stdin bytes.Buffer
+	stdin.WriteString("@RSYNCD: 27\n#list\n")
+	var out bytes.Buffer
+	done := make(chan struct{}, 1)
+	go func() {
+		defer func() { recover(); done <- struct{}{} }()
+		env := &rsyncos.Env{Stdin: &stdin, Stdout: &out, Stderr: io.Discard, DontRestrict: true}
+		maincmd.Main(context.Background(), env, args, cfg)
+	}()
+	select {
+	case <-done:
+	case <-time.After(10 * time.Second):
+	}
+	var names []string
+	for _, l := range strings.Split(out.String(), "\n") {
+		if l == "" || strings.HasPrefix(l, "@RSYNCD:") || strings.HasPrefix(l, "@ERROR") {
+			continue
+		}
+		names = append(names, strings.TrimSpace(strings.SplitN(l, "\t", 2)[0]))
+	}
+	return names
+}
+
 func suiteSSH(h *H) {
 	os.Stderr = devNull
 	dir, err := os.MkdirTemp("", "verif-ssh")
@@ -198,6 +224,8 @@ func suiteSSH(h *H) {
 	os.WriteFile(filepath.Join(modDir, "f"), []byte("data"), 0o644)
 	scratch := filepath.Join(dir, "scratch")
 	os.MkdirAll(scratch, 0o755)
+	// a second configuration file a command line may point at: its module must never be served by a listener
+	os.WriteFile(filepath.Join(scratch, "other.toml"), []byte(fmt.Sprintf("[[listener]]\nrsyncd = \"localhost:0\"\n[[module]]\nname = \"leak3\"\npath = %q\n", scratch)), 0o644)
 	// client-mode command lines with relative paths copy into the working directory
 	if wd, err := os.Getwd(); err == nil {
 		defer os.Chdir(wd)
@@ -390,6 +418,19 @@ func suiteSSH(h *H) {
 					v = fmt.Sprintf("FAIL[C20] anonymous SSH session runs %q: a client-mode transfer copied a file", got)
 				}
 			}
+			if anonymous && cls == "daemon" {
+				// "against the configured modules": whatever else the command line says, the daemon it starts
+				// serves the listener's modules and nothing more
+				configured := map[string]bool{}
+				for _, m := range cfg.Modules {
+					configured[m.Name] = true
+				}
+				for _, name := range daemonModules(cfg, got) {
+					if !configured[name] {
+						v = fmt.Sprintf("FAIL[C20] anonymous SSH session runs %q: the daemon it starts offers module %q, which the listener's configuration does not have", got, name)
+					}
+				}
+			}
 			if anonymous && cls != "daemon" && cls != "other" {
 				v = fmt.Sprintf("FAIL[C20] anonymous SSH session runs %q: maincmd.Main takes the role %s", got, cls)
 			}
@@ -405,7 +446,8 @@ func suiteSSH(h *H) {
 	}
 	recv := filepath.Join(scratch, "recvdir")
 	vocab := []string{"--server", "--daemon", "--sender", "-e", "--rsh", "--rsh=" + rsh, "-e" + rsh, rsh, ".", modDir, recv, "-r", "-logDtpr", "--config=/nonexistent", "--config", "--filter", "--exclude",
-		"--port", "--contimeout", "--delete", "-n", "--no-detach", "--detach", "--help", "--version", "-v", "-h", "--address=x", "--gokr.config=/x", "--dparam=x", "", "--", "-", "--info=help", "m/", "localhost:" + modDir, "-T", "--temp-dir=" + recv, "--protocol=27", "--bwlimit=1"}
+		"--port", "--contimeout", "--delete", "-n", "--no-detach", "--detach", "--help", "--version", "-v", "-h", "--address=x", "--gokr.config=/x", "--dparam=x", "", "--", "-", "--info=help", "m/", "localhost:" + modDir, "-T", "--temp-dir=" + recv, "--protocol=27", "--bwlimit=1",
+		"--gokr.modulemap=leak=" + scratch, "--gokr.modulemap=m=" + scratch, "--gokr.config=" + filepath.Join(scratch, "other.toml")}
 	fixed := [][]string{
 		{"rsync", "--server", "--daemon", "."},
 		{"rsync", "--server", "--daemon"},
@@ -416,6 +458,9 @@ func suiteSSH(h *H) {
 		{"rsync", "--server", "--daemon", "--no-detach", "-v", "."},
 		{"rsync", "--server", "--daemon", "--help"},
 		{"rsync", "--server", "--daemon", recv},
+		{"rsync", "--server", "--daemon", "--gokr.modulemap=leak=" + scratch, "."},
+		{"rsync", "--server", "--daemon", "--gokr.modulemap=leak=/", "--gokr.modulemap=leak2=" + scratch, "."},
+		{"rsync", "--server", "--daemon", "--gokr.config=" + filepath.Join(scratch, "other.toml"), "."},
 		{"rsync", "--server", "--sender", "-logDtpr", ".", modDir + "/"},
 		{"rsync", "--server", "-logDtpr", ".", recv},
 		{"rsync", "--server", "-e", "--daemon", ".", recv},
